@@ -18,6 +18,9 @@ func genCase(r *kit.Rand, i int, tier string) (chain, stop, class string, n int)
 	if r.Chance(1, 10) {
 		return genBarrierAboveFailing(r)
 	}
+	if r.Chance(1, 7) {
+		return genMultiKey(r)
+	}
 	thorough := tier == "thorough"
 	stop = []string{"task", "close", "delete", "task"}[r.Intn(4)]
 	// ---- chain
@@ -195,7 +198,7 @@ func genFork(r *kit.Rand) (chain, stop, class string, n int) {
 	if r.Chance(1, 4) {
 		return genMerge(r)
 	}
-	healthy := []string{"post", "where,post", "alert", "influx:7", "post,where", "where,influx:50"}
+	healthy := []string{"post", "where,post", "alert", "influx:7", "post,where", "where,influx:50", "minflux:7.3.2"}
 	nb := r.Range(2, 3)
 	var br []string
 	for k := 0; k < nb; k++ {
@@ -272,6 +275,67 @@ func genMerge(r *kit.Rand) (chain, stop, class string, n int) {
 	}
 	if lag > 0 && class != "early" && n <= lag {
 		n = lag + 5
+	}
+	return
+}
+
+// genMultiKey: an influxDBOut node WITHOUT .database()/.retentionPolicy() in a task with K DBRPs (`minflux:<B>.<K>.<F>`):
+// the points keep the database they came from, so the node's write buffer holds one batch per database, and the final
+// flush at the stop (stopBuffer -> writeAll) has several batches to write, in the random iteration order of a Go map.
+// In two cases out of three the fake client REJECTS the writes to some databases (bit mask F: one database, several, or
+// all but one): the healthy databases must still have been handed every accepted point when the stop has returned.
+// The buffer size B is placed so that at the stop most databases still hold a partial batch (B > n/K), that some batches
+// were written at the threshold before (B < n/K, rejected ones included), or both. Schedule classes whose outcome the
+// model predicts exactly: drained (any stop), early, and gated / immediate under Close (which drains the ingest edge).
+func genMultiKey(r *kit.Rand) (chain, stop, class string, n int) {
+	k := kit.Pick(r, []int{2, 3, 4, 5, 8, 8})
+	mask := 0
+	switch r.Intn(6) {
+	case 0, 1:
+		// every database healthy
+	case 2, 3:
+		mask = 1 << uint(r.Intn(k))
+	case 4:
+		mask = (1 << uint(r.Intn(k))) | (1 << uint(r.Intn(k)))
+	default:
+		mask = (1<<uint(k) - 1) &^ (1 << uint(r.Intn(k))) // all but one
+	}
+	switch c := r.Intn(8); {
+	case c < 4:
+		class, stop = "drained", kit.Pick(r, []string{"task", "delete", "close"})
+	case c < 6:
+		class, stop = "gated", "close"
+	case c < 7:
+		class, stop = "immediate", "close"
+	default:
+		class, stop = "early", kit.Pick(r, []string{"task", "close"})
+	}
+	per := kit.Pick(r, []int{1, 3, 7, 40}) // points per database, about
+	n = per*k + r.Intn(k)
+	var b int
+	switch r.Intn(4) {
+	case 0:
+		b = per + 1 + r.Intn(3) // nothing written before the stop: every database has a partial batch
+	case 1:
+		b = 1000
+	case 2:
+		b = per/2 + 1 // threshold writes AND partial batches
+	default:
+		b = kit.Pick(r, []int{1, 2, per, per + 1})
+	}
+	if class == "gated" || class == "immediate" {
+		n += kit.Pick(r, []int{0, 0, edgeCap, 2*edgeCap + 100})
+		if r.Chance(1, 2) {
+			b = kit.Pick(r, []int{50, 1000})
+		}
+	}
+	if class == "early" {
+		n = 0
+	}
+	mid := kit.Pick(r, []string{"", "", "where,", "post,"})
+	chain = fmt.Sprintf("from,%sminflux:%d.%d.%d", mid, b, k, mask) // (influxDBOut has no chaining methods: always a leaf)
+	if mid == "post," && n > 2000 {
+		n = 2000 - r.Intn(500)
 	}
 	return
 }
